@@ -18,8 +18,13 @@ import (
 )
 
 func c14Stampede(r *Result, rng *rand.Rand, rounds int) {
-	hangs := 0
-	for i := 0; i < rounds && !expired() && hangs < 3; i++ {
+	// bail-out: 3 hanging rounds end the suite; when the forced suite already confirmed that goroutines hang in this
+	// cache, one hanging round and a shorter wait are enough
+	hangs, maxHangs, wait := 0, 3, 5*time.Second
+	if c14ForcedHangs > 0 {
+		maxHangs, wait = 1, 2*time.Second
+	}
+	for i := 0; i < rounds && !expired() && hangs < maxHangs; i++ {
 		n := 4 + rng.Intn(9)
 		nq := 1 + rng.Intn(2)
 		ops := make([]c14Op, n)
@@ -46,7 +51,7 @@ func c14Stampede(r *Result, rng *rand.Rand, rounds int) {
 		in := map[string]interface{}{"goroutines": n, "texts": nq, "round": i}
 		select {
 		case <-done:
-		case <-time.After(5 * time.Second):
+		case <-time.After(wait):
 			r.Violate(Violation{Kind: "e2e", Suite: "stampede", Input: in, Observed: "goroutines did not finish", Expected: "no deadlock"})
 			hangs++
 			continue
@@ -87,8 +92,47 @@ type c14Row struct {
 	Age  int
 }
 
+// c14GormTimeout bounds one round / one probe of the free-running gorm suite: a cache whose waiters are never woken
+// must not hang the harness.  A round takes a few milliseconds; the bound is far beyond any load effect.
+func c14GormTimeout() time.Duration {
+	if c14ForcedHangs > 0 {
+		return 5 * time.Second // the forced suite already confirmed that goroutines hang in this cache
+	}
+	return 20 * time.Second
+}
+
+// c14Bounded runs f on its own goroutine and reports whether it returned within the timeout.  On a timeout the
+// goroutine is left behind (it is blocked inside the cache) and the caller must stop using what f was using.
+func c14Bounded(timeout time.Duration, f func()) bool {
+	done := make(chan struct{})
+	go func() { defer close(done); f() }()
+	select {
+	case <-done:
+		return true
+	case <-time.After(timeout):
+		return false
+	}
+}
+
 func c14Gorm(r *Result, rng *rand.Rand, rounds int) {
 	for i := 0; i < rounds && !expired(); i++ {
+		i := i
+		n := 2 + rng.Intn(5)
+		if !c14Bounded(c14GormTimeout(), func() { c14GormRound(r, i, n) }) {
+			r.Violate(Violation{Kind: "e2e", Suite: "gorm", Input: map[string]interface{}{"goroutines": n, "session_level": i%2 == 1, "round": i},
+				Observed: fmt.Sprintf("the round did not finish within %v (goroutines blocked inside the prepared-statement cache)", c14GormTimeout()), Expected: "no deadlock"})
+			r.Note("gorm suite: round %d hung, the remaining rounds and the API probe are skipped", i)
+			return
+		}
+	}
+	if !c14Bounded(c14GormTimeout(), func() { c14GormStaleProbe(r) }) {
+		r.Violate(Violation{Kind: "e2e", Suite: "gorm", Input: "stale-session-probe",
+			Observed: fmt.Sprintf("the probe did not finish within %v", c14GormTimeout()), Expected: "no deadlock"})
+	}
+}
+
+func c14GormRound(r *Result, i, n int) {
+	{
 		sessionLevel := i%2 == 1
 		db, rec, sqlDB := OpenRec(&gorm.Config{PrepareStmt: !sessionLevel})
 		ref, _, refSQL := OpenRec(nil)
@@ -119,7 +163,6 @@ func c14Gorm(r *Result, rng *rand.Rand, rounds int) {
 				return fmt.Sprint(out), e
 			},
 		}
-		n := 2 + rng.Intn(5)
 		var wg sync.WaitGroup
 		var mu sync.Mutex
 		bad := []string{}
@@ -156,7 +199,7 @@ func c14Gorm(r *Result, rng *rand.Rand, rounds int) {
 		pdb, ok := h.ConnPool.(*gorm.PreparedStmtDB)
 		if !ok {
 			r.Violate(Violation{Kind: "e2e", Suite: "gorm", Input: in, Observed: fmt.Sprintf("%T", h.ConnPool), Expected: "*gorm.PreparedStmtDB"})
-			continue
+			return
 		}
 		cached := len(pdb.Stmts)
 		r.H("c14.gorm.cached-texts", fmt.Sprint(cached))
@@ -184,7 +227,10 @@ func c14Gorm(r *Result, rng *rand.Rand, rounds int) {
 		sqlDB.Close()
 		refSQL.Close()
 	}
-	// F14a through the public API only
+}
+
+// F14a through the public API only
+func c14GormStaleProbe(r *Result) {
 	db, _, sqlDB := OpenRec(nil)
 	defer sqlDB.Close()
 	db.Exec("create table c14_rows(id integer primary key, name text, age int)")
